@@ -45,6 +45,12 @@ def summarize(r):
     return line
 
 
+def load_all():
+    index = S.SourceIndex()
+    contracts, specs, rec, mods = load_contracts(index)
+    return index, contracts, specs, rec
+
+
 def main():
     index = S.SourceIndex()
     contracts, specs, rec, mods = load_contracts(index)
